@@ -191,10 +191,14 @@ class FnFlow:
         return out
 
     # -- C10 consumer analysis ----------------------------------------------------
-    def order_insensitive_consumer(self, call):
+    def order_insensitive_consumer(self, call, closure_lookup=None):
         dest = call.term["dest"]
         if dest["p"]:
             return False, "iterator stored into a projection"
+        if closure_lookup is not None:
+            self.closure_lookup = closure_lookup
+        m = (call.path or call.best or "").rsplit("::", 1)[-1]
+        self.elem_kind = "values" if m in ("values", "values_mut", "into_values") else ("keys" if m in ("keys", "into_keys") else "pairs")
         return self._judge_iter({dest["l"]}, set(), 0)
 
     def _judge_iter(self, seeds, visited_calls, depth):
@@ -232,7 +236,7 @@ class FnFlow:
                 if self._collect_target_ok(t):
                     verdicts.append((True, "collect into ordered/hash container"))
                 elif self._collect_is_vec(t):
-                    ok, why = self.vec_sorted_before_use(t["dest"]["l"], bi)
+                    ok, why = self.vec_sorted_before_use(t["dest"]["l"], bi, getattr(self, "elem_kind", "pairs"))
                     if not ok:
                         return False, why
                     verdicts.append((True, "collect::<Vec> then sort"))
@@ -263,7 +267,10 @@ class FnFlow:
         targs = t["callee"].get("targs") or []
         return len(targs) >= 2 and targs[1].startswith("std::vec::Vec<")
 
-    def vec_sorted_before_use(self, vlocal, from_bb):
+    def vec_sorted_before_use(self, vlocal, from_bb, elem_kind="pairs"):
+        """the collected Vec is sorted by a TOTAL key before any other use. Total = plain sort()/sort_unstable()
+        of map keys or (key, value) pairs (hash-map keys are unique), or sort_by_key / sort_by whose closure only
+        projects component .0 (the unique key) of the element; anything else may tie and keep hash order."""
         A = self.alias_closure({vlocal})
         uses = self.call_uses(A)
         dom = self.dominators()
@@ -272,17 +279,69 @@ class FnFlow:
         for bi, t, ai in uses:
             m = (t["callee"].get("path") or "").rsplit("::", 1)[-1]
             if m in SORTS:
-                sorts.append(bi)
+                sorts.append((bi, t, m))
             elif m in PASS_THROUGH or m == "drop" or "drop_in_place" in (t["callee"].get("path") or ""):
                 continue
             else:
                 others.append((bi, t))
         if not sorts:
             return False, "collected Vec is never sorted"
+        for bi, t, m in sorts:
+            if m in ("sort", "sort_unstable"):
+                if elem_kind == "values":
+                    return False, "values are sorted with their own Ord: elements that compare equal keep hash order"
+                continue
+            ok, why = self._sort_key_is_map_key(t)
+            if not ok:
+                return False, why
         for bi, t in others:
-            if not any(sb in dom.get(bi, ()) and sb != bi for sb in sorts):
+            if not any(sb in dom.get(bi, ()) and sb != bi for sb, _, _ in sorts):
                 return False, "collected Vec is used by %s before being sorted" % t["callee"].get("path")
-        return True, "sorted before use"
+        return True, "sorted by a total key before use"
+
+    def _sort_key_is_map_key(self, t):
+        """sort_by_key(|e| ..) / sort_by(|a, b| ..): the closure may only read component .0 of its element(s)"""
+        if elem_kind_of(t) is None:
+            pass
+        clos = None
+        for a in t["args"][1:]:
+            l = op_local(a)
+            if l is None:
+                continue
+            for _, d in self.defs_of(l):
+                rv = d.get("rv")
+                if rv and rv["k"] == "Aggregate" and rv.get("agg") == "Closure":
+                    clos = rv["closure"]
+        if clos is None:
+            return False, "sort key is not a closure literal: cannot show that the key is total"
+        cf = self.closure_lookup(clos) if hasattr(self, "closure_lookup") else None
+        if cf is None or not cf.mir:
+            return False, "sort key closure not found"
+        argc = cf.mir["arg_count"]
+        for b in cf.mir["blocks"]:
+            places = []
+            for st in b["stmts"]:
+                if st["k"] == "Assign":
+                    rv = st["rv"]
+                    for k in ("op", "a", "b"):
+                        if isinstance(rv.get(k), dict) and rv[k].get("place"):
+                            places.append(rv[k]["place"])
+                    if rv.get("place"):
+                        places.append(rv["place"])
+            tm = b["term"]
+            for a in tm.get("args", []):
+                if a.get("place"):
+                    places.append(a["place"])
+            for pl in places:
+                if 2 <= pl["l"] <= argc:
+                    fields = [x for x in pl["p"] if x.startswith("f:")]
+                    if not fields or fields[0] != "f:#0":
+                        return False, "sort key closure reads %s of the element, not only the (unique) map key `.0`: elements with equal keys keep hash order" % (fields[:1] or ["the whole element"])
+        return True, "keyed by the map key"
+
+
+def elem_kind_of(t):
+    return None
 
 
 # ---------------------------------------------------------------------------
